@@ -16,7 +16,7 @@ ORACLE = ('RENUM new,old,step is accepted iff step >= 1, new is above every line
           'reported once, ON ERROR GOTO 0 stays 0, Program.line_numbers maps the new numbers to the same '
           'positions, and the active error handler and event trap follow their lines; a rejected RENUM raises '
           'Illegal function call and changes nothing')
-BOUNDS = {'program': 'one seven-line template with every kind of reference named above and one missing target',
+BOUNDS = {'program': 'one seven-line template with every kind of reference named above and one missing target, typed in numeric order and (one case) out of order',
           'arguments': 'new, old in 0..65529 and step in 0..65529, all symbolic (also omitted arguments: defaults)',
           'traps': 'error handler line and KEY(1) trap line each none / a line below / inside the renumbered range '
                    '(one case per combination)',
@@ -70,8 +70,10 @@ def _scan(code):
 
 def body(h):
     impl = session.mk_impl(h)
-    for line in PROGRAM:
-        impl.execute(line)
+    # (the line dictionary keeps insertion order: lines typed out of numeric order are a different state)
+    order = [4, 0, 6, 2, 1, 5, 3] if h.params.get('shuffled') else range(len(PROGRAM))
+    for k in order:
+        impl.execute(PROGRAM[k])
     impl.execute(b'A%=0')
     prog = impl.program
     code0 = bytes(prog.bytecode.getvalue())
@@ -159,4 +161,6 @@ def cases(tier):
                 cs.append(Case('renum-%s-err%d-trap%d' % (form, err, trap), body,
                                params={'form': form, 'err': err, 'trap': trap},
                                symdict=['basic.program'], timeout_s=1800, max_paths=20000, backend='INT'))
+    cs.append(Case('renum-all-typed-out-of-order', body, params={'form': 'all', 'err': 60, 'trap': 20, 'shuffled': True},
+                   symdict=['basic.program'], timeout_s=1800, max_paths=20000, backend='INT'))
     return cs
